@@ -1083,7 +1083,7 @@ func (r *Resolver) executeSubscriptionUpdate(resolveCtx *Context, sub *subscript
 	if err := sub.writer.Flush(); err != nil {
 		sub.writeMu.Unlock()
 		// If flush fails (e.g. client disconnected), remove the subscription.
-		_ = r.UnsubscribeSubscription(sub.id)
+		r.unsubscribeState(sub)
 		return
 	}
 	sub.lastWriteTime.Store(time.Now().UnixNano())
@@ -1111,7 +1111,7 @@ func (r *Resolver) executeSubscriptionHeartbeat(sub *subscriptionState) {
 	}
 
 	if err := sub.sendHeartbeat(); err != nil {
-		_ = r.UnsubscribeSubscription(sub.id)
+		r.unsubscribeState(sub)
 		return
 	}
 
@@ -1212,7 +1212,7 @@ func (r *Resolver) addSubscription(triggerID uint64, add *addSubscription) error
 		go func() {
 			if err := r.executeStartupHooks(add, trig.updater); err != nil {
 				s.writeError(r.errorFormatter, add.ctx, err, add.resolve.Response)
-				_ = r.UnsubscribeSubscription(add.id)
+				r.unsubscribeState(s)
 			}
 		}()
 		return nil
@@ -1676,10 +1676,25 @@ type SubscriptionIdentifier struct {
 }
 
 func (r *Resolver) UnsubscribeSubscription(id SubscriptionIdentifier) error {
+	return r.unsubscribe(id, nil)
+}
+
+// unsubscribeState removes the subscription s — and only s. Clean-up that runs asynchronously (a late hook
+// failure, a failed write) must not remove by id: the id may belong to a new subscription by then.
+func (r *Resolver) unsubscribeState(s *subscriptionState) {
+	_ = r.unsubscribe(s.id, s)
+}
+
+// unsubscribe removes the subscription registered under id; if only is not nil, only when it is that subscription.
+func (r *Resolver) unsubscribe(id SubscriptionIdentifier, only *subscriptionState) error {
 	r.mu.Lock()
 	if r.shutdown {
 		r.mu.Unlock()
 		return r.ctx.Err()
+	}
+	if only != nil && r.subscriptionsByID[id] != only {
+		r.mu.Unlock()
+		return nil
 	}
 	res := r.removeSubscriptionLocked(id)
 	if r.reporter != nil {
